@@ -322,7 +322,16 @@ func (w *worker) runCase(cfg Cfg, name string, next func(*view) (string, bool)) 
 						k = -1
 					}
 				}
-				if mp := in.sessMedia[k]; k >= 0 && mp != nil && mp.tcp {
+				// … and only a session that is still alive: an id that names a session which has ended
+				// meanwhile (its connection was closed) is an unknown id, the SETUP creates a new session
+				// (second false alarm of this oracle, thorough tier `rand-67064`, see DESIGN 10.5)
+				alive := false
+				if k >= 0 {
+					for _, sx := range in.snapshot().sess {
+						alive = alive || sx.idx == k
+					}
+				}
+				if mp := in.sessMedia[k]; alive && mp != nil && mp.tcp {
 					usedChans = append(usedChans, mp.chans...)
 				}
 			}
